@@ -36,6 +36,11 @@ type c14Case struct {
 	// Rounds: history — one Auth object used for len(Rounds) exchanges in a row, each against a server with its
 	// own parameters (overriding the ones above)
 	Rounds []c14Round `json:"rounds,omitempty"`
+	// AbortAt/AbortHow: history — a first exchange with the same Auth object is ended by the server at its AbortAt-th
+	// AUTH step (1 = the AUTH line itself) with AbortHow (0: 454, 1: 535, 2: disconnect); the judged exchange is the
+	// conforming one that follows on a new connection
+	AbortAt  int `json:"abort_at,omitempty"`
+	AbortHow int `json:"abort_how,omitempty"`
 }
 
 type c14Round struct {
@@ -149,6 +154,9 @@ func c14Exec(r *vf.Run, k c14Case) []finding {
 	if len(k0.Rounds) > 0 {
 		rounds = len(k0.Rounds)
 	}
+	if k0.AbortAt > 0 {
+		rounds = 2
+	}
 	for round := 0; round < rounds; round++ {
 		if len(k0.Rounds) > 0 {
 			k.Salt, k.Iter, k.SPass = k0.Rounds[round].Salt, k0.Rounds[round].Iter, k0.Rounds[round].SPass
@@ -162,6 +170,27 @@ func c14Exec(r *vf.Run, k c14Case) []finding {
 		conn := refsmtp.NewConn(sess)
 		trace := &sasl.Trace{}
 		sess.NewAuth = c14Server(k, conn, trace)
+		aborted := false
+		if k0.AbortAt > 0 && round == 0 {
+			step := 0
+			sess.Script = func(s *refsmtp.Session, ev *refsmtp.Event, def refsmtp.Action) refsmtp.Action {
+				if ev.Verb != "AUTH" && ev.Verb != "AUTHRESP" {
+					return def
+				}
+				step++
+				if step != k0.AbortAt {
+					return def
+				}
+				aborted = true
+				switch k0.AbortHow {
+				case 1:
+					return refsmtp.Action{Kind: refsmtp.ActReply, Code: 535, Text: []string{"5.7.8 authentication failed"}}
+				case 2:
+					return refsmtp.Action{Kind: refsmtp.ActDrop}
+				}
+				return refsmtp.Action{Kind: refsmtp.ActReply, Code: 454, Text: []string{"4.7.0 temporary authentication failure"}}
+			}
+		}
 		var authErr error
 		if k.TLSVer != 0 {
 			cfg := hx.ServerTLS(hx.Mat().Good)
@@ -211,7 +240,7 @@ func c14Exec(r *vf.Run, k c14Case) []finding {
 					r.HarnessError("C14 smtp.NewClient: %v", err)
 					return
 				}
-				if sharedAuth == nil || !(k.Twice || len(k0.Rounds) > 0) {
+				if sharedAuth == nil || !(k.Twice || len(k0.Rounds) > 0 || k0.AbortAt > 0) {
 					sharedAuth = c14Auth(k, nil)
 				}
 				authErr = cl.Auth(sharedAuth)
@@ -223,6 +252,12 @@ func c14Exec(r *vf.Run, k c14Case) []finding {
 			if pan {
 				return []finding{{"panic/" + vf.PanicSite(pw), firstLine(pw)}}
 			}
+		}
+		if k0.AbortAt > 0 && round == 0 {
+			if aborted {
+				r.Outcome(fmt.Sprintf("reached/first-exchange-aborted/%s/step=%d", k.Mech, k0.AbortAt))
+			}
+			continue // the first exchange is history: only the conforming one that follows is judged
 		}
 		for _, il := range sess.Illegal {
 			if il.Key == "unknown-command" && strings.Contains(il.What, `"*"`) {
@@ -257,6 +292,9 @@ func c14Exec(r *vf.Run, k c14Case) []finding {
 			}
 			if len(k0.Rounds) > 0 {
 				cls += fmt.Sprintf("/exchange-%d-of-one-auth-object", round+1)
+			}
+			if k0.AbortAt > 0 {
+				cls += fmt.Sprintf("/after-an-exchange-aborted-at-step-%d", k0.AbortAt)
 			}
 			add(fmt.Sprintf("right-credentials-rejected/%s/%s", k.Mech, cls), "%s with the right credentials (user %q) was not accepted by the reference verifier: %s", k.Mech, k.User, clipS(reason, 200))
 		case !right && (ok || trace.Accepted):
@@ -325,7 +363,7 @@ func init() {
 	vf.Register(&vf.Check{
 		ID: "C14", Title: "SASL mechanisms interoperate with conforming servers",
 		Run: func(r *vf.Run) {
-			r.SetRule("user names and passwords/tokens: ALL strings of length 0..2 (thorough 0..3 for users) over {a B = , SP é 日 \\x01 %} plus a 300-byte value, as (user, password) pairs with the right and with two kinds of wrong server-side credentials, for PLAIN, LOGIN, CRAM-MD5 (× challenge strings), XOAUTH2, SCRAM-SHA-1, SCRAM-SHA-256; SCRAM parameter sweeps (pseudo-random salts of length 1..20 and 64, all salts of length 1..3 over {00 01 '=' ff} and 16-byte salts framed by / made of those bytes, iteration counts {1,2,3,4,4095,4096,4097,10000,20000} (thorough: every i<=512 and every 97th up to 20000), server nonce suffixes incl. '=' and 24 printable chars); SCRAM-SHA-1/256-PLUS over real TLS 1.2 (tls-unique) and TLS 1.3 (tls-exporter) handshakes; two exchanges on one Auth object (nonce freshness); histories of 2 (thorough 3) exchanges with one Auth object, every combination of per-exchange server parameters over {2 salts} × {i=16,17,1,4096} × {server expects the right / another password}; all mechanisms through mail.Client over real TLS 1.2/1.3 with a re-dial on the same Client (two connections, fresh channel binding each); the verdict of reference verifiers written from the RFCs (self-tested on RFC 5802/7677/2195/4616/6070 vectors) must be 'accepted' exactly when credentials are equal; distinct by case tuple")
+			r.SetRule("user names and passwords/tokens: ALL strings of length 0..2 (thorough 0..3 for users) over {a B = , SP é 日 \\x01 %} plus a 300-byte value, as (user, password) pairs with the right and with two kinds of wrong server-side credentials, for PLAIN, LOGIN, CRAM-MD5 (× challenge strings), XOAUTH2, SCRAM-SHA-1, SCRAM-SHA-256; SCRAM parameter sweeps (pseudo-random salts of length 1..20 and 64, all salts of length 1..3 over {00 01 '=' ff} and 16-byte salts framed by / made of those bytes, iteration counts {1,2,3,4,4095,4096,4097,10000,20000} (thorough: every i<=512 and every 97th up to 20000), server nonce suffixes incl. '=' and 24 printable chars); SCRAM-SHA-1/256-PLUS over real TLS 1.2 (tls-unique) and TLS 1.3 (tls-exporter) handshakes; two exchanges on one Auth object (nonce freshness); for every mechanism, a first exchange that the server ends at its 1st..4th AUTH step with {454, 535, disconnect} followed by a conforming exchange with the same Auth object; histories of 2 (thorough 3) exchanges with one Auth object, every combination of per-exchange server parameters over {2 salts} × {i=16,17,1,4096} × {server expects the right / another password}; all mechanisms through mail.Client over real TLS 1.2/1.3 with a re-dial on the same Client (two connections, fresh channel binding each); the verdict of reference verifiers written from the RFCs (self-tested on RFC 5802/7677/2195/4616/6070 vectors) must be 'accepted' exactly when credentials are equal; distinct by case tuple")
 			r.Assume("admissible credentials per mechanism: PLAIN non-empty without NUL; XOAUTH2 without ^A; SCRAM non-empty without control characters (SASLprep/PRECIS prohibit them); Unicode restricted to strings on which SASLprep and PRECIS OpaqueString agree",
 				"an empty server nonce suffix is not exercised (the property is silent)")
 			alpha := []string{"a", "B", "=", ",", " ", "é", "日", "\x01", "%"}
@@ -432,6 +470,14 @@ func init() {
 					}
 				}
 			}
+			// histories: a first exchange ended by the server at every step, then a conforming exchange with the same object
+			for _, mech := range c14Mechs {
+				for at := 1; at <= 4; at++ {
+					for how := 0; how < 3; how++ {
+						cases = append(cases, c14Case{Mech: mech, User: "user", Pass: "pencil", SUser: "user", SPass: "pencil", AbortAt: at, AbortHow: how})
+					}
+				}
+			}
 			plusCreds := [][2]string{{"user", "pencil"}, {"us,er=x", "p=,w d"}, {"é日", "pä ss"}, {"a", "b"}, {"user", "wrong"}}
 			for _, mech := range []string{"SCRAM-SHA-1-PLUS", "SCRAM-SHA-256-PLUS"} {
 				for _, ver := range []int{12, 13} {
@@ -482,7 +528,7 @@ func init() {
 					})
 				}
 			})
-			r.Reached("reached/history-exchange-1-accepted", "reached/history-exchange-2-accepted", "reached/redial-accepted", "reached/percent-credentials-accepted/CRAM-MD5", "reached/percent-credentials-accepted/PLAIN",
+			r.Reached("reached/first-exchange-aborted/LOGIN/step=2", "reached/first-exchange-aborted/LOGIN/step=3", "reached/first-exchange-aborted/PLAIN/step=1", "reached/first-exchange-aborted/SCRAM-SHA-256/step=3", "reached/first-exchange-aborted/CRAM-MD5/step=2", "reached/history-exchange-1-accepted", "reached/history-exchange-2-accepted", "reached/redial-accepted", "reached/percent-credentials-accepted/CRAM-MD5", "reached/percent-credentials-accepted/PLAIN",
 				"reached/percent-credentials-accepted/SCRAM-SHA-256", "accepted/SCRAM-SHA-256-PLUS/tls1.2", "accepted/SCRAM-SHA-256-PLUS/tls1.3", "accepted/XOAUTH2", "accepted/LOGIN")
 		},
 		Replay: func(r *vf.Run, kase json.RawMessage) {
